@@ -47,8 +47,12 @@ void harness(void) {
   img[CORRUPT] = ND_U8();
   const uint64_t m = (uint64_t)size;
 #else
+#ifdef FULL
+  const uint64_t m = (uint64_t)size;      /* the complete image: the reader must report exactly the documented content (C09 / C10) */
+#else
   ASSERT(M < size, "harness: M is a strict prefix length of this image");
   const uint64_t m = M;
+#endif
 #endif
   uint8_t* buf = malloc(m ? m : 1);
   ASSUME(buf != 0);
@@ -64,6 +68,11 @@ void harness(void) {
   /* corrupted preamble byte: an exception, or a usable sketch (getters and a full iteration ran inside the wrapper without touching
    * memory outside the buffer - decided by cbmc's pointer checks); the iterator must deliver exactly num_retained entries */
   if (rc == 0) ASSERT(v.iterated == v.num, "accepted image: iteration yields num_retained entries");
+#elif defined(FULL)
+  ASSERT(rc == 0, "the complete image is accepted");
+  ASSERT(v.num == N && v.iterated == N && v.theta == theta && (int)v.is_empty == (N == 0 && !EST), "reader reports the documented count, theta and emptiness");
+  for (uint32_t i = 0; i < N; i++) { ASSERT(v.e[i] == e[i], "reader returns the documented entries in order"); OBSERVE(v.e[i]); }
+  ASSERT(v.seed_hash == sh, "seed hash as documented (computed from the seed for serial version 1)");
 #else
   ASSERT(rc == 1, "a strict prefix of a valid image is rejected with an exception");
 #endif
